@@ -236,6 +236,12 @@ def index_common(eng, st, site, func, args, dty, checked, kind, unsafe=False):
         for c in cond:
             if not eng.add(st, c):
                 return []
+    if r is not None and (getattr(s, "is_str", False) or "for str>" in (func.get("resolved") or func)["name"]):
+        # slicing a str panics unless both ends are char boundaries; only the ends of the string are known to be
+        lo, hi = r
+        okb = all(eng.ent(st, c_eq(x, Lin.const(0))) or eng.ent(st, c_eq(x, s.len)) for x in (lo, hi))
+        eng.oblig("bounds", frame, bb, label + " (char boundary)", okb, st,
+                  None if okb else "str range [%r, %r): an end that is neither 0 nor the length is not known to be a char boundary" % (lo, hi), t.get("ln"))
     return [(st, mk(st))]
 
 
@@ -494,6 +500,9 @@ def unwrap_stub(eng, st, site, func, target, args, dty):
     for s2, vi, fs in alts:
         if vi == good:
             out.append((s2, fs[0] if fs else VUnknown(dty, eng.fresh("unwrapped"))))
+        elif not unchecked and "panic_sink" in eng.hooks:
+            # unwrap/expect of the other variant is a refusal (panic) like an explicit assert
+            eng.hooks["panic_sink"](frame, s2, bb, target["name"].rsplit("::", 1)[1] + " of " + ("None" if is_opt else "Err"))
     return out
 
 
